@@ -94,6 +94,7 @@ struct Resolve {
 	std::vector<int> schedule;             // per region: prong given by a schedule request, -1 none
 	std::vector<std::vector<int>> alts;    // per region: other children float rounding could legitimately have picked
 	int randomResolved = 0;
+	bool probe_exactBoundary = false;   // a draw landed exactly on an interval boundary (or on 0) in exact arithmetic
 	bool usedSelect = false;
 
 	Resolve(const Shape& s, const Op* o, const Cfg& b) : sh(s), op(o), before(b), req(size_t(s.n), -1), how(size_t(s.n), -1), setBy(size_t(s.n), -1),
@@ -154,8 +155,10 @@ struct Resolve {
 				if (u > best) { best = u; c = k; }
 			}
 			// the library multiplies in float: candidates within a few ulps of the maximum are indistinguishable
+			// ... unless every product involved is exactly representable in float, in which case there is nothing to round
 			alts[size_t(r)].clear();
-			for (int k = 0; k < int(us.size()); ++k) if (k != c && us[size_t(k)] >= best - best * 1e-6L) alts[size_t(r)].push_back(k);
+			bool exact = true; for (auto u : us) if ((long double)(float) u != u) exact = false;
+			if (!exact) for (int k = 0; k < int(us.size()); ++k) if (k != c && us[size_t(k)] >= best - best * 1e-6L) alts[size_t(r)].push_back(k);
 			break; }
 		case K_RANDOMIZE: {
 			++randomResolved;
@@ -172,12 +175,16 @@ struct Resolve {
 			const long double slack = sum * 4.8e-7L;                    // 4 ulp of the float sum
 			long double acc = 0; c = -1;
 			alts[size_t(r)].clear();
+			// exact when sum, cursor and every partial sum are representable in float: then the interval rule is strict ([lo, hi): a value on a boundary belongs to the next sub-state)
+			bool exact = (long double)(float) sum == sum && (long double)(float) cursor == cursor;
+			{ long double a2 = 0; for (int k = 0; k < sh.st[size_t(r)].width; ++k) { if ((long double)(float) u[size_t(k)] != u[size_t(k)]) exact = false; a2 += u[size_t(k)]; if ((long double)(float) a2 != a2 || (long double)(float)(cursor - a2) != (cursor - a2)) exact = false; } }
 			for (int k = 0; k < sh.st[size_t(r)].width; ++k) {
 				if (u[size_t(k)] <= 0) continue;
 				const long double lo = acc; acc += u[size_t(k)];
 				if (c < 0 && cursor < acc) c = k;
-				if (cursor >= lo - slack && cursor < acc + slack) alts[size_t(r)].push_back(k);
+				if (!exact && cursor >= lo - slack && cursor < acc + slack) alts[size_t(r)].push_back(k);
 			}
+			if (exact) probe_exactBoundary = probe_exactBoundary || [&] { long double a3 = 0; for (auto x : u) { a3 += x; if (a3 == cursor) return true; } return cursor == 0; }();
 			if (c < 0) for (int k = sh.st[size_t(r)].width - 1; k >= 0; --k) if (u[size_t(k)] > 0) { c = k; break; }
 			break; }
 		default: c = 0; break;
@@ -674,7 +681,7 @@ static void checkConfiguration(World& w, int i, const Op& op, const Obs& before,
 		const char* oracle = isUtil ? (how == K_UTILIZE ? "C12.utilize" : "C12.randomize") : "C02.choice";
 		if (isUtil ? !w12 : !w02) continue;
 		w.checked(oracle);
-		if (how == K_RANDOMIZE) w.probe("random_region_resolved");
+		if (how == K_RANDOMIZE) { w.probe("random_region_resolved"); if (r.probe_exactBoundary) w.probe("draw_exactly_on_boundary"); }
 		if (ca.active[size_t(g)] == r.req[size_t(g)]) continue;
 		if (isUtil && std::find(r.alts[size_t(g)].begin(), r.alts[size_t(g)].end(), ca.active[size_t(g)]) != r.alts[size_t(g)].end()) { w.probe("utility_within_rounding"); continue; }
 		if (isUtil) { bool fragileBelow = false; for (int x = g + 1; x < g + sh.st[size_t(g)].size; ++x) if (sh.isCompo(x) && !r.alts[size_t(x)].empty()) fragileBelow = true; if (fragileBelow) { w.probe("nested_choice_within_rounding"); continue; } }
